@@ -23,7 +23,8 @@ Here this is lifted to runs (`step_oext`, `run_oext`) and read off clause by cla
 * `closed_queue_forever` - C10 "`put` on a closed queue raises StreamClosed and stores nothing": closed for ever, and the
   buffer from then on is always a suffix of what it was (items are only taken from the front);
 * `closed_channel_forever` - C11;
-* `event_triggered_once` - C18 "an event is triggered at most once": a value, once there, is the value for ever.
+* `event_triggered_once` - C18 "an event is triggered at most once": a value, once there, is the value for ever;
+* `callbacks_processed_once` - C18 "its callbacks run exactly once": processed callbacks are never armed again.
 -/
 set_option linter.unusedVariables false
 set_option linter.unusedSimpArgs false
@@ -162,7 +163,14 @@ theorem closed_channel_forever (n : Nat) (w : World Rat) (c : Name) (hq : c < w.
 process ending), that value - result or exception object - is its value after any number of steps of any program -/
 theorem event_triggered_once (n : Nat) (w : World Rat) (e : Nat) (he : e < w.py.events.size)
     (hv : (w.pyEv e).value.isSome = true) : ((w.runFuel n).1.pyEv e).value = (w.pyEv e).value :=
-  ((run_oext n w).events.2 e he).2.2 hv
+  ((run_oext n w).events.2 e he).2.2.1 hv
+
+/-- **the callbacks of an event run at most once**: `Event._invoke_callbacks` processes them only while the list exists and
+sets it to `None`; from then on no callback is ever armed on that event again (`callbacks` stays `None`), whatever the
+program does -/
+theorem callbacks_processed_once (n : Nat) (w : World Rat) (e : Nat) (he : e < w.py.events.size)
+    (hc : (w.pyEv e).callbacks = none) : ((w.runFuel n).1.pyEv e).callbacks = none :=
+  ((run_oext n w).events.2 e he).2.2.2 hc
 
 /-- an event keeps its flag and its kind -/
 theorem event_identity (n : Nat) (w : World Rat) (e : Nat) (he : e < w.py.events.size) :
